@@ -106,7 +106,7 @@ def shard(ctx):
             w = {"files": {"main.asm": src}, "roots": ["main.asm"], "std": False, "tag": "casc", "kind": "casc"}
         else:
             prog = None
-            w = workload.draw(rng, kinds=("corpus", "mut", "isa", "isamut"))
+            w = workload.draw(rng, kinds=("corpus", "mut", "isa", "isamut", "macro"), weights=(2, 2, 2, 1, 4))
         budgets = rng.sample(BUDGET_POOL, 4 if prog else 2)
         if 10 not in budgets:
             budgets.append(10)
